@@ -3,7 +3,8 @@
    at the level of the whole flattened record list of a file with its includes.  The text layer
    (the formatting round trip, C05) is not part of these statements: what is read back from the
    written file is [map reread rs'].  [known_class] = [] excludes exactly the known findings D5 / D12. *)
-From SLT Require Import JudgeSpec Runner Update UpdateSpec UpdateProofs UpdateFile1 UpdateFile3 UpdateFile.
+From SLT Require Import Parser Include JudgeSpec Runner Update UpdateSpec UpdateProofs FormatSpec FormatProofs UpdateFile1 UpdateFile3 UpdateFile
+  UpdateText UpdateText3 UpdateText5 UpdateText7 UpdateText8.
 
 (* the rewritten record, as read back from the file, is accepted by the judge on the same
    answer, and rewriting it again leaves what is written unchanged *)
@@ -79,3 +80,44 @@ Theorem C06_written_is_updated_records :
       Forall (fun r => marker r = None -> display r <> None) (updated_records re sep strict substitute sc rs st w).
 Proof. exact update_loop_updated. Qed.
 Print Assumptions C06_written_is_updated_records.
+
+(* TEXT LEVEL: "updating yields a file that still parses".  For a file tree that parses (parse_file,
+   no line ending in CR: known finding D16), if the update completes and every output written into
+   a record is representable in the format ([out_repr]: counts within u64, error / stdout texts
+   without CR LF and without two consecutive empty lines, result rows non-empty single lines, type
+   strings non-empty and made of characters the column type accepts - each clause shown necessary
+   by a counterexample in UpdateText8.v), then every file the updater writes holds exactly one
+   file's records, and - unless that file's last non-blank record ends in an empty SQL / command
+   line (known finding D19, C06_dangling_end_refuted) - its bytes are the UTF-8 of a text that
+   parses, to the re-read updated records of that file up to trailing blank-line records, with the
+   same meaning.  Together with C06_file_converges (which is stated on exactly these re-read
+   records) this is the property at the level of file contents. *)
+Theorem C06_text_reparses :
+  forall col rv rm sep strict substitute sc fs glob fuel main rs st w written ev kn,
+    col_stable col -> escape_valid rv ->
+    (forall f s, fs f = Some (FFile s) -> no_trailing_cr s) ->
+    parse_file col rv fs glob fuel main = FOkR rs ->
+    update_loop rm sep strict substitute sc false rs [mkItem main []] false st w [] [] []
+      = UOk written ev kn ->
+    Forall2 (out_repr col sep strict) rs (updated_outputs rm sep strict substitute sc rs st w) ->
+    exists files_in files_out,
+      split_files rs [(main, [])] [] = Some files_in /\
+      split_files (updated_records rm sep strict substitute sc rs st w) [(main, [])] [] = Some files_out /\
+      Forall2 (fun pin pout => fst pout = fst pin /\ length (snd pout) = length (snd pin)) files_in files_out /\
+      Forall2 (fun pout d => fst d = fst pout /\ file_reparses_exact col rv (snd pout) (snd d)) files_out written.
+Proof. exact parse_file_update_text_reparses_exact. Qed.
+Print Assumptions C06_text_reparses.
+
+(* known finding D19 (witness): `statement ok` followed by an empty SQL line parses; written back
+   and trimmed to one final line feed it is `statement ok` + LF, which is rejected (UnexpectedEOF) *)
+Theorem C06_dangling_end_refuted :
+  exists r text bytes,
+    parse default_col rvT F None dangling_src = POk [r] /\
+    parsed_ok default_col rvT [r] /\
+    ends_in_empty_sql [r] = true /\ dangling_end [r] = true /\
+    write_records [r] = Some text /\
+    trim_tail (utf8 text) = TOk bytes /\
+    bytes = utf8 (src ["statement ok"]%string) /\
+    parse default_col rvT F None (src ["statement ok"]%string) = PErr PUnexpectedEOF 2.
+Proof. exact empty_sql_at_end_does_not_reparse. Qed.
+Print Assumptions C06_dangling_end_refuted.
